@@ -196,7 +196,9 @@ def plain_domain():
 
 def decide_included(r1, r2, domain=None, timeout_s=20):
     t0 = time.time()
-    v, w = relang.included(r1, r2, domain, timeout_s)
+    # command-line back ends first: they honour their time limit
+    v, w = relang.included(r1, r2, domain, timeout_s,
+                           backends=('z3new', 'cvc5', 'z3cli'))
     info = dict(relang.last_info or {})
     return v, w, time.time() - t0, info.get('backend')
 
